@@ -179,11 +179,24 @@ struct B<'r> {
     nsrc: usize,
     nsinks: usize,
     checks: Vec<Check>,
+    /// per node: inside the root-level loop block; `loop_mode`: new nodes go inside
+    in_loop: Vec<bool>,
+    loop_mode: bool,
 }
 
 impl<'r> B<'r> {
     fn new(r: &'r mut Rng, nsrc: usize) -> Self {
-        let mut b = B { r, nodes: vec![], cons: vec![], size: vec![], nsrc, nsinks: 0, checks: vec![] };
+        let mut b = B {
+            r,
+            nodes: vec![],
+            cons: vec![],
+            size: vec![],
+            nsrc,
+            nsinks: 0,
+            checks: vec![],
+            in_loop: vec![],
+            loop_mode: false,
+        };
         for k in 0..nsrc {
             b.add(Op::Source(k), vec![]);
         }
@@ -198,6 +211,7 @@ impl<'r> B<'r> {
             nodes: self.nodes.clone(),
             checks: vec![],
             depth: 0,
+            in_loop: self.in_loop.clone(),
         }
     }
     /// Is the stream produced by a `handoff()` (possibly through unary unions, which the compiler
@@ -260,6 +274,7 @@ impl<'r> B<'r> {
         let e = est(&op, &sizes).max(1);
         self.cons.push(vec![0; op.n_out()]);
         self.size.push(vec![e; op.n_out()]);
+        self.in_loop.push(self.loop_mode);
         self.nodes.push(Node { op, ins });
         self.nodes.len() - 1
     }
@@ -443,6 +458,7 @@ impl<'r> B<'r> {
             nodes: self.nodes,
             checks: self.checks,
             depth,
+            in_loop: self.in_loop,
         };
         p.topo();
         p
@@ -788,6 +804,67 @@ fn gen_defer(r: &mut Rng, todo: &mut Todo, id: usize, c: usize) -> Program {
     b.finish(id, Mode::Defer, d)
 }
 
+/// C24 shape with a root-level `loop { }` block: sources enter through `batch()`, inside the block a
+/// decaying cycle through deferrals (the counter dies out) and a straight deferral chain with probes;
+/// everything downstream stays inside the block. `lc` = running number of the loop program.
+fn gen_defer_loop(r: &mut Rng, id: usize, lc: usize) -> Program {
+    let nsrc = 1 + r.below(2);
+    let mut b = B::new(r, nsrc);
+    let mut src: Edge = (0, 0);
+    if b.r.chance(1, 2) {
+        let fm = b.r.below(fns::N_MAPF as usize) as u8;
+        src = (b.add(Op::Map(fm), vec![src]), 0);
+    }
+    b.loop_mode = true;
+    let bt = (b.add(Op::Batch, vec![src]), 0);
+    // decaying cycle: u = union(batch, defer(...defer(decay(u))))
+    let cycle_lazy = lc % 2 == 1;
+    let base = b.nodes.len();
+    let n_def = 1 + (lc / 2) % 2;
+    let last_defer = base + 1 + n_def;
+    b.add(Op::Union, vec![bt, (last_defer, 0)]);
+    b.add(Op::Decay, vec![(base, 0)]);
+    let mut prev = base + 1;
+    for k in 0..n_def {
+        // a lazy cycle has all its deferrals lazy (negative case); otherwise at most the first is lazy
+        let lazy = cycle_lazy || (k == 0 && n_def == 2 && b.r.chance(1, 3));
+        prev = b.add(if lazy { Op::DeferTickLazy } else { Op::DeferTick }, vec![(prev, 0)]);
+    }
+    assert_eq!(prev, last_defer);
+    b.cons[last_defer][0] += 1;
+    // With a lazy cycle the eager chain hangs off the batch entry, so that it drains while the cycle
+    // still holds (lazy-only) data: `run_available` must then stop.
+    let e: Edge = if cycle_lazy { bt } else { (base, 0) };
+    // straight chain of d deferrals with probes at both ends
+    let d = 1 + (lc / 2) % 3;
+    let lazy_at = if (lc / 4) % 2 == 1 { Some(b.r.below(d)) } else { None };
+    let mut cur = e;
+    for k in 0..d {
+        let op = if lazy_at == Some(k) { Op::DeferTickLazy } else { Op::DeferTick };
+        cur = (b.add(op, vec![cur]), 0);
+    }
+    let es = b.sink(e);
+    let xs = b.sink(cur);
+    if cycle_lazy {
+        b.sink((base, 0));
+    }
+    if lazy_at.is_none() {
+        // inside a root-level loop a lazy deferral waits for the block to fire again, so the tick
+        // arithmetic exit[t + d] == entry[t] is only documented for all-eager chains
+        b.checks.push(Check::Deferred { entry_sink: es, exit_sink: xs, d });
+    }
+    // a few stateless consumers inside the block
+    let fm = b.r.below(fns::N_MAPF as usize) as u8;
+    let m = (b.add(Op::Map(fm), vec![cur]), 0);
+    if nsrc == 2 {
+        let bt2 = (b.add(Op::Batch, vec![(1, 0)]), 0);
+        let u = (b.add(Op::Union, vec![m, bt2]), 0);
+        let fp = b.r.below(fns::N_PRED as usize) as u8;
+        b.add(Op::Filter(fp), vec![u]);
+    }
+    b.finish(id, Mode::Defer, d)
+}
+
 /// How the `n` programs of a run are split over the three modes.
 pub fn mode_of(i: usize) -> Mode {
     // rotate so that every shard (i % 8) gets programs of every mode
@@ -817,7 +894,9 @@ pub fn generate(seed: u64, n: usize) -> Vec<Program> {
             }
             Mode::Defer => {
                 n_defer += 1;
-                gen_defer(&mut pr, &mut todo, id, n_defer - 1)
+                let c = n_defer - 1;
+                // every third deferral program uses a root-level loop block
+                if c % 3 == 1 { gen_defer_loop(&mut pr, id, c / 3) } else { gen_defer(&mut pr, &mut todo, id, c) }
             }
         };
         out.push(p);
